@@ -13,6 +13,10 @@ for pid in sorted(claims):
     src = open(prop).read() if os.path.exists(prop) else ''
     imports = re.findall(r'^import (ChiModel\.\S+|ChiProofs\.Lemmas\.\S+)', src, flags=re.M)
     nthm = len(re.findall(r'^theorem ', src, flags=re.M))
+    tie = os.path.join(here, 'lean', 'ChiProofs', 'Tie', pid + '.lean')
+    if os.path.exists(tie):      # the source-tie theorems are audited with the property's own
+        nthm += len(re.findall(r'^theorem ', open(tie).read(), flags=re.M))
+        imports = imports + ['ChiProofs.Lemmas.Tie/' + pid + ' (generated: ChiGen)']
     ev = {}
     evp = os.path.join(here, 'evidence', pid + '.json')
     if os.path.exists(evp):
